@@ -616,6 +616,37 @@ func runIndex(ops SL) Result {
 				tags["multi-block"] = true
 			}
 			obs = append(obs, L(B(meta), bl))
+		case 6: // index pruner scan
+			tail := AsU64(op[1])
+			obs = append(obs, guard(func() Sx {
+				n, err := pathdb.VerifC19PrunePrefix(db, tail)
+				if err != nil {
+					orc.failf("pruner scan failed: %v", err)
+				}
+				return L(I(int64(n)))
+			}))
+			tags["prune"] = true
+			if !poisoned {
+				el, err := dbElems(db)
+				switch {
+				case err != nil:
+					orc.failf("prune(%d): stored index unreadable afterwards: %v", tail, err)
+				case len(el) > len(ref) || !eqIDs(el, ref[len(ref)-len(el):]):
+					orc.failf("prune(%d): stored ids are not a suffix of the ids before pruning", tail)
+				default:
+					dropped := ref[:len(ref)-len(el)]
+					if len(dropped) > 0 {
+						tags["prune-dropped"] = true
+						if dropped[len(dropped)-1] >= tail {
+							orc.failf("prune(%d) removed the live id %d (>= tail)", tail, dropped[len(dropped)-1])
+						}
+					}
+					if len(el) == 0 && len(ref) > 0 {
+						tags["prune-all"] = true
+					}
+					ref = el
+				}
+			}
 		default:
 			panic("hxlib: unknown index op")
 		}
@@ -1206,6 +1237,79 @@ func genBadStore(r *Rng) Sx {
 	return L(I(3), B(meta), bl, ids(qs))
 }
 
+// pruning sessions: a multi-block index is built (7-byte deltas: about 585 ids per
+// block), its block maxima are read off the real metadata, and the pruner is run
+// with tails on block boundaries (max of block k, +-1), in the middle of a block,
+// below the first id and above the last, with queries around the tail after each
+// run, further appends, and a second pruning.
+func genPrune(r *Rng) Sx {
+	dense7 = true
+	defer func() { dense7 = false }()
+	n := r.Range(1250, 1900)
+	l, cur := ascending(r, uint64(r.Intn(1000)), n, false)
+	db := rawdb.NewMemoryDatabase()
+	w, _ := pathdb.VerifC19NewIndexWriter(db, addr, 0, 0)
+	for _, id := range l {
+		w.Append(id, nil)
+	}
+	batch := db.NewBatch()
+	w.Finish(batch)
+	batch.Write()
+	meta, _, _ := dumpDB(db)
+	descs, _ := pathdb.VerifC19ParseIndex(meta, 0)
+	var maxes []uint64
+	for _, d := range descs {
+		maxes = append(maxes, d.Max)
+	}
+	pickTail := func(lo int) (uint64, int) {
+		switch r.Intn(10) {
+		case 0:
+			return l[0] - uint64(r.Intn(2)), lo // below / at the first id
+		case 1:
+			return l[len(l)-1] + uint64(r.Intn(3)), len(maxes) // at / above the last id
+		case 2, 3:
+			return l[r.Intn(len(l))], lo // anywhere
+		}
+		k := lo + r.Intn(len(maxes)-lo)
+		return maxes[k] + uint64(r.Intn(3)) - 1, k // max of block k, -1, +1
+	}
+	ops := SL{L(I(0), U(math.MaxUint64), ids(l))}
+	if r.Chance(1, 4) {
+		ops = append(ops, L(I(5)))
+	}
+	lo := 0
+	for round := 0; round < r.Range(1, 3) && lo < len(maxes); round++ {
+		tail, k := pickTail(lo)
+		if round == 0 && len(maxes) >= 2 && r.Bool() {
+			// exactly the max id of a non-first block: the id itself must survive
+			k = 1 + r.Intn(len(maxes)-1)
+			tail = maxes[k]
+		}
+		ops = append(ops, L(I(6), U(tail)))
+		for _, q := range []uint64{tail - 1, tail, tail + 1} {
+			if r.Chance(2, 3) {
+				ops = append(ops, L(I(2), U(q)))
+			}
+		}
+		if r.Chance(1, 4) {
+			ops = append(ops, L(I(5)))
+		}
+		if k > lo {
+			lo = k
+		}
+		if r.Chance(1, 3) { // keep appending, then prune again
+			more, c2 := ascending(r, cur, r.Range(1, 700), false)
+			cur = c2
+			ops = append(ops, L(I(0), U(math.MaxUint64), ids(more)))
+		}
+		if r.Chance(1, 5) { // pop a few from the head as well
+			ops = append(ops, L(I(1), U(math.MaxUint64), ids([]uint64{cur})))
+		}
+	}
+	ops = append(ops, L(I(2), U(0)), L(I(5)))
+	return L(I(1), ops)
+}
+
 func gen(r *Rng, tier string, emit func(Sx)) {
 	nBlock, nLong, nIndex, nBad, nBadStore := 300, 20, 24, 400, 50
 	if tier == "thorough" {
@@ -1219,6 +1323,9 @@ func gen(r *Rng, tier string, emit func(Sx)) {
 	}
 	for i := 0; i < nIndex; i++ {
 		emit(genIndex(r))
+	}
+	for i := 0; i < nIndex/2; i++ {
+		emit(genPrune(r))
 	}
 	for i := 0; i < nBad; i++ {
 		emit(genBadBlock(r))
@@ -1234,7 +1341,7 @@ func gen(r *Rng, tier string, emit func(Sx)) {
 func main() {
 	Main(Family{
 		ID:          "C19",
-		Rule:        "block sessions: random single/bulk appends (strictly ascending ids with 1..9-byte deltas, plus zero/out-of-order ids), single/bulk pops aimed at the 256-entry restart boundary, reopening from finish() bytes with and without a trimming limit, readGreaterThan/SeekGT+Next/full iteration on a reader over the bytes, byte dumps; index sessions over a memory store: writer sessions (filling several 4096-byte blocks), deleter sessions (popping across block boundaries, down to empty), limit-trimmed reopen, queries and store dumps after sessions; malformed stream: truncated/bit-flipped/continuation-byte/overflow/junk-extended blocks and random bytes through parseIndexBlock, parseIndex and the block reader, corrupted stores (metadata, dropped/swapped/corrupted blocks) through the index reader, corrupted blocks under a block writer (newBlockWriter with the original or a lying descriptor, with and without a trimming limit, then pops). Non-trivial: a session of >= 3 operations, a malformed blob of >= 2 bytes, a malformed store with >= 1 descriptor; distinct = distinct case line.",
+		Rule:        "block sessions: random single/bulk appends (strictly ascending ids with 1..9-byte deltas, plus zero/out-of-order ids), single/bulk pops aimed at the 256-entry restart boundary, reopening from finish() bytes with and without a trimming limit, readGreaterThan/SeekGT+Next/full iteration on a reader over the bytes, byte dumps; index sessions over a memory store: writer sessions (filling several 4096-byte blocks), deleter sessions (popping across block boundaries, down to empty), limit-trimmed reopen, queries and store dumps after sessions; pruning sessions: a 3-6 block index, the index pruner's scan with tails equal to each block's max id (and +-1), inside a block, below the first and above the last id, queries around the tail, further appends and a second pruning; malformed stream: truncated/bit-flipped/continuation-byte/overflow/junk-extended blocks and random bytes through parseIndexBlock, parseIndex and the block reader, corrupted stores (metadata, dropped/swapped/corrupted blocks) through the index reader, corrupted blocks under a block writer (newBlockWriter with the original or a lying descriptor, with and without a trimming limit, then pops). Non-trivial: a session of >= 3 operations, a malformed blob of >= 2 bytes, a malformed store with >= 1 descriptor; distinct = distinct case line.",
 		Gen:         gen,
 		Run:         run,
 		CaseTimeout: 20 * time.Second,
